@@ -4,7 +4,6 @@ package cl
 
 import (
 	"fmt"
-	"io"
 	"runtime"
 	"time"
 
@@ -46,7 +45,7 @@ func (f *Room) Call(s *slip.Scope, args slip.List, depth int) slip.Object {
 	slip.CheckArgCount(s, depth, f, args, 0, 1)
 	var ms runtime.MemStats
 	runtime.ReadMemStats(&ms)
-	w := s.Get("*standard-output*").(io.Writer)
+	w := s.WriterVar("*standard-output*", depth)
 	// Start with the minimum.
 	_, _ = fmt.Fprintf(w, "Allocated heap:        %10d bytes\n", ms.Alloc)
 	_, _ = fmt.Fprintf(w, "Total mallocs:         %10d\n", ms.Mallocs)
